@@ -129,7 +129,7 @@ impl Prop for C09 {
         "C09"
     }
     fn rule(&self) -> String {
-        "cases = a list of 0-1023 column descriptors (table/column names of 0 to 70000 bytes biased to 249-256 and 65534-65537, non-ASCII UTF-8; every ColumnType variant; flag words from all 16 bits) used as a text resultset header, a binary resultset header, or a PREPARE reply (arbitrary u32 statement id, independent parameter and column lists). Oracle: decoded count and per column table, name, type, flags in order equal the declared ones; PREPARE_OK id / num_params / num_columns equal; mysql_common's Column parser agrees. Non-trivial = > 250 columns, or a name > 250 bytes, or flags with >= 3 bits.".into()
+        "cases = a list of 0-1023 column descriptors (table/column names of 0 to 70000 bytes biased to 249-256 and 65534-65537, non-ASCII UTF-8, plus enumerated ~16 MiB names that make one definition as large as, or larger than, a wire packet; every ColumnType variant; flag words from all 16 bits) used as a text resultset header, a binary resultset header, or a PREPARE reply (arbitrary u32 statement id, independent parameter and column lists). Oracle: decoded count and per column table, name, type, flags in order equal the declared ones; PREPARE_OK id / num_params / num_columns equal; mysql_common's Column parser agrees. Non-trivial = > 250 columns, or a name > 250 bytes, or flags with >= 3 bits.".into()
     }
     fn cases(&self, tier: Tier) -> u64 {
         tier.pick(60000, 600000)
@@ -153,6 +153,25 @@ impl Prop for C09 {
         let allow_zero = matches!(site, Site::Prepare { .. });
         Case { cols: gen_collist(g, allow_zero), site }
     }
+    fn fixed(&self, tier: Tier) -> Vec<Case> {
+        // definitions around and beyond one wire packet (2^24-1 bytes): definition size is
+        // 20 + lenenc(table) + lenenc(name) bytes, i.e. 1 + 3 + (4 + name) + 20 for a 3-byte table
+        let mut v = Vec::new();
+        let base = 20 + 1 + 3 + 4; // everything but the name bytes
+        let lens: Vec<usize> = match tier {
+            Tier::Quick => vec![MAX_PAYLOAD - base, MAX_PAYLOAD - base + 1],
+            Tier::Thorough => vec![MAX_PAYLOAD - base - 1, MAX_PAYLOAD - base, MAX_PAYLOAD - base + 1, MAX_PAYLOAD + 5, 2 * MAX_PAYLOAD - base + 3],
+        };
+        for (i, len) in lens.into_iter().enumerate() {
+            let big = ColGen { table: NameSpec::Lit("tbl".into()), name: NameSpec::Pat { seed: i as u32 + 1, len }, coltype: T_LONG, flags: 0x1021 };
+            let small = ColGen { table: NameSpec::Lit("t".into()), name: NameSpec::Lit("after".into()), coltype: T_VAR_STRING, flags: 1 };
+            v.push(Case { cols: vec![small.clone(), big.clone(), small.clone()], site: if i % 2 == 0 { Site::TextHeader } else { Site::BinHeader } });
+            if tier == Tier::Thorough || i == 1 {
+                v.push(Case { cols: vec![small.clone()], site: Site::Prepare { id: 7, params: vec![big.clone(), small.clone()] } });
+            }
+        }
+        v
+    }
     fn exec(&self, case: &Case) -> Exec {
         let mut ex = Exec::default();
         let cols: Vec<ColSpec> = case.cols.iter().map(spec).collect();
@@ -170,6 +189,9 @@ impl Prop for C09 {
         }
         if all.iter().any(|c| c.name.len() > 65_535 || c.table.len() > 65_535) {
             ex.class("name>65535");
+        }
+        if all.iter().any(|c| c.name.len() + c.table.len() > MAX_PAYLOAD - 40) {
+            ex.class("definition>=one-wire-packet");
         }
         if all.iter().any(|c| c.flags.count_ones() >= 3) {
             ex.nontrivial = true;
